@@ -316,6 +316,8 @@ EXC_PARENTS = {
     'ArithmeticError': 'Exception',
     'ZeroDivisionError': 'ArithmeticError',
     'SyntaxError': 'Exception',
+    'NameError': 'Exception',
+    'UnboundLocalError': 'NameError',         # a local read on a path that never bound it
     'UserExc': 'Exception',                   # stands for "some Exception subclass of the user"
     'UserBaseExc': 'BaseException',           # "some BaseException-only class of the user"
 }
@@ -336,10 +338,14 @@ def _anc(n):
 RARE_OSERRORS = ('PermissionError', 'FileNotFoundError', 'FileExistsError', 'InterruptedError')
 
 
+# known classes that are decided concretely against other known classes and stay outside the quantified universe
+NEVER_IN_UNIVERSE = ('NameError', 'UnboundLocalError')
+
+
 def hierarchy_axioms(with_rare=False):
     """Ground facts for the known classes + closure axioms for symbolic ones."""
     ax = []
-    names = [n for n in EXC_PARENTS if with_rare or n not in RARE_OSERRORS]
+    names = [n for n in EXC_PARENTS if (with_rare or n not in RARE_OSERRORS) and n not in NEVER_IN_UNIVERSE]
     ax.append(z3.Distinct(*[EXC[n].term for n in names]))
     for a in names:
         anc = set(_anc(a))
